@@ -163,9 +163,11 @@ Print Assumptions C09_serve_returns_at_end_of_input.
 (* ---- the inventory of partial operations ---- *)
 
 (* every partial operation the translator finds in the sources is accounted for
-   by the model: a new unguarded assertion, a removed nil check or a bare
-   channel send breaks this obligation before any input is found *)
+   by the model (in files of other properties: every one of a dangerous kind):
+   a new unguarded assertion, a removed nil check, a Must call or a bare channel
+   send breaks this obligation before any input is found *)
 Theorem C09_sites_covered : forall s, In s generated_sites ->
+  (owned s = false /\ dangerous_kind (s_kind s) = false) \/
   exists m, In m modelled_sites /\ site_loose_eqb s (fst m) = true.
 Proof. exact sites_covered_in. Qed.
 Print Assumptions C09_sites_covered.
